@@ -31,6 +31,9 @@ THEOREMS = [
     'C03.getitem_as_modelled',
     'C03.spec_scale_invariant', 'C03.nlist_scale_invariant', 'C03.spec_translate_invariant',
     'C03.nlist_translate_invariant',
+    'C03.spec_mirror_invariant', 'C03.nlist_mirror_invariant', 'C03.spec_farface_invariant',
+    'C03.nlist_farface_invariant', 'C03.spec_reorder_invariant', 'C03.nlist_reorder_invariant',
+    'C03.spec_axes_invariant', 'C03.nlist_axes_invariant',
 ]
 PARTIAL = {}
 RULE = ('systems: orthogonal / tilted / general (rotated, left-handed) cells with non-zero origin, all 8 pbc '
@@ -47,7 +50,8 @@ RULE = ('systems: orthogonal / tilted / general (rotated, left-handed) cells wit
         'rotated / left-handed, flat and needle-like, cutoff 0.3-1.2 of the shortest lattice vector among the 26 '
         'image shifts, float and dyadic-grid; "outside" systems (correspondence only): atoms up to half a cutoff outside '
         'the cell, where the result depends on the binning; "sequence": ONE System object, 3-7 times (query -> one small '
-        'change), the change drawn from 22 kinds (one atom moved in place / through Atoms.prop / through the scaled '
+        'change), the change drawn from 24 kinds (the cell spanned from the far face of one vector (that vector negated), '
+        'the whole system mirrored through coordinate planes, one atom moved in place / through Atoms.prop / through the scaled '
         'setter, all atoms replaced through the setter / the view / scaled, two atoms swapped, pbc setter or in-place '
         'flip, box_set scale=True / scale=False / box.set, rigid translation, atoms_extend, atoms_ix subset, deepcopy, '
         'wrap, System.neighborlist(model=dump of the previous answer), r0(), other cutoff, other sizes, nothing), the '
@@ -1083,6 +1087,162 @@ def gen_chain(rng, it, natoms=None, nmin=1030, nmax=5000):
     pos = rel @ v + np.array(origin)
     case = _case(v, origin, pos, pbc, c, 'float', rng.choice([1, 3, 20]), rng.choice([1, 2, 10]))
     case['long_axis'] = ax
+    return case
+
+
+# ----------------------------------------------------------------------------------------
+# signs and axis orders: every cell above, seen in a mirror / with its axes renamed / spanned from another corner
+# ----------------------------------------------------------------------------------------
+_AXIS_PERMS = [(0, 1, 2), (1, 2, 0), (2, 0, 1), (0, 2, 1), (2, 1, 0), (1, 0, 2)]
+
+
+def _mirrored(case, mask):
+    """the whole system reflected through the coordinate planes named by the bits of `mask` (bit j: Cartesian axis j):
+    column j of the cell matrix, origin[j] and every position[j] change sign.  Exact in every regime (a sign change
+    rounds nothing): a diagonal cell diag(5, 6, 7) at origin (0, 0, 1) becomes diag(5, 6, -7) with its origin on the
+    top face, a LAMMPS-form cell gets the sign pattern `mask` on its diagonal, a right-handed cell becomes
+    left-handed for an odd number of bits.  Distances, and with them the lists, are unchanged."""
+    np = _np()
+    s = np.array([-1.0 if mask >> j & 1 else 1.0 for j in range(3)])
+    c = dict(case)
+    c['vects'] = (np.array(case['vects'], dtype=float) * s[None, :]).tolist()
+    c['origin'] = [float(x) for x in (np.array(case['origin'], dtype=float) * s)]
+    c['pos'] = (np.array(case['pos'], dtype=float).reshape(-1, 3) * s[None, :]).tolist()
+    return c
+
+
+def _axes_renamed(case, perm):
+    """Cartesian axes renamed: new axis j is old axis perm[j] (columns of the cell matrix, origin and positions
+    permuted; a proper or improper rotation of the whole system).  Exact as data; the implementation then adds the
+    three squares in another order, so in the float regimes the last bit of a distance may differ (tie band)."""
+    np = _np()
+    p = list(perm)
+    c = dict(case)
+    c['vects'] = np.array(case['vects'], dtype=float)[:, p].tolist()
+    c['origin'] = [float(case['origin'][k]) for k in p]
+    c['pos'] = np.array(case['pos'], dtype=float).reshape(-1, 3)[:, p].tolist()
+    if 'long_axis' in c:
+        c['long_axis'] = p.index(c['long_axis'])
+    return c
+
+
+def _vectors_reordered(case, perm):
+    """the same cell with its three vectors (and their pbc flags) listed in another order: the same lattice, the same
+    atoms."""
+    np = _np()
+    p = list(perm)
+    c = dict(case)
+    c['vects'] = np.array(case['vects'], dtype=float)[p].tolist()
+    c['pbc'] = [bool(case['pbc'][k]) for k in p]
+    return c
+
+
+def _spanned_from_far_face(case, k):
+    """the same cell spanned from the opposite face of vector k: vector k negated, origin moved to origin + vector k;
+    the atoms do not move and are still inside.  None when origin + vector k is not exactly representable (float
+    regimes: the face would move by a rounding error and atoms lying on it would end up outside the cell)."""
+    np = _np()
+    v = np.array(case['vects'], dtype=float)
+    o = np.array(case['origin'], dtype=float)
+    no = o + v[k]
+    if any(Fraction(float(no[j])) != Fraction(float(o[j])) + Fraction(float(v[k, j])) for j in range(3)):
+        return None
+    c = dict(case)
+    v2 = v.copy()
+    v2[k] = -v[k]
+    c['vects'] = v2.tolist()
+    c['origin'] = [float(x) for x in no]
+    return c
+
+
+def _variant(case, rng):
+    """one of the 8 x 6 x 6 (x 8 where exact) equivalent descriptions of the system of `case`: mirrored through 0-3
+    coordinate planes, Cartesian axes renamed, cell vectors listed in another order, spanned from other corners.
+    Returns (case, text)."""
+    mask = rng.choice([1, 2, 4, 3, 5, 6, 7, 4, 2, 1, 0])
+    aperm = rng.choice(_AXIS_PERMS) if rng.random() < 0.4 else (0, 1, 2)
+    vperm = rng.choice(_AXIS_PERMS) if rng.random() < 0.3 else (0, 1, 2)
+    c = _mirrored(case, mask)
+    what = [f'mirrored through the planes {[j for j in range(3) if mask >> j & 1]}'] if mask else []
+    if aperm != (0, 1, 2):
+        c = _axes_renamed(c, aperm)
+        what.append(f'Cartesian axes renamed {aperm}')
+    if vperm != (0, 1, 2):
+        c = _vectors_reordered(c, vperm)
+        what.append(f'cell vectors listed in the order {vperm}')
+    for k in range(3):
+        if rng.random() < 0.35:
+            f = _spanned_from_far_face(c, k)
+            if f is not None:
+                c = f
+                what.append(f'spanned from the far face of vector {k}')
+    return c, ', '.join(what) or 'as generated'
+
+
+def gen_signed(rng, it):
+    """Axis-aligned and LAMMPS-form cells with EVERY sign pattern of the diagonal (a cell vector pointing down its
+    axis, the origin then on the upper face), crossed with the shape (diagonal / lower triangular with tilt factors of
+    either sign and every zero pattern of the three tilt factors / upper triangular / diagonal with the axes cyclically renamed: one non-zero entry per row and column
+    but none on the diagonal / tilted and renamed), the 8 pbc settings, and float vs dyadic-grid numbers (every 3rd:
+    ties decided exactly).  2-28 atoms anywhere in the cell, faces and corners included, with pairs placed across
+    each periodic face (a hair to 0.9 cutoffs apart through the image) so that the wrap along a negative vector is
+    exercised in both directions; cutoff 0.25-1.3 of the smallest cell width."""
+    np = _np()
+    signs = [-1.0 if it >> j & 1 else 1.0 for j in range(3)]            # it % 8: sign pattern of the diagonal
+    shape = (it // 8) % 5
+    pbc = list(ALL_PBC[(it // 40) % 8]) if (it // 40) % 3 else [True, True, True]
+    grid = it % 3 == 2
+    q = 8
+    if grid:
+        L = [rng.randint(12, 40) / q for _ in range(3)]
+    else:
+        L = [rng.uniform(2.0, 9.0) for _ in range(3)]
+    v = np.diag([signs[k] * L[k] for k in range(3)])
+    if shape in (1, 2, 4):
+        def t(length):
+            x = rng.uniform(-0.5, 0.5) * length
+            return round(x * q) / q if grid else x
+        tm = rng.randint(1, 7)               # which tilt factors are non-zero: every zero pattern (xy only: c decoupled, ...)
+        v[1, 0], v[2, 0], v[2, 1] = (t(L[0]) if tm & 1 else 0.0), (t(L[0]) if tm & 2 else 0.0), (t(L[1]) if tm & 4 else 0.0)
+    if shape == 2:
+        v = v.T.copy()                                                   # upper triangular
+    if shape in (3, 4):
+        v = v[:, list(rng.choice(_AXIS_PERMS[1:]))]                      # axes renamed: off-diagonal "diagonal" cell
+    origin = [rng.randint(-16, 16) / q for _ in range(3)] if grid else [rng.uniform(-5, 5) for _ in range(3)]
+    if it % 7 == 0:
+        origin = [0.0, 0.0, 0.0]
+    w = min(_widths(v))
+    if grid:
+        cands = [c for c in (0.5, 0.75, 1.0, 1.25, 1.5, 2.0, 2.5, 3.0) if 0.25 * w <= c <= 1.3 * w]
+        cutoff = rng.choice(cands or [1.0])
+    else:
+        cutoff = rng.choice([rng.uniform(0.25, 0.5), rng.uniform(0.5, 0.9), rng.uniform(0.9, 1.3)]) * w
+    r = cutoff / w
+    n = _limit_atoms(rng, r, pbc, 28)
+    rel = []
+    lens = [float(np.linalg.norm(v[k])) for k in range(3)]
+    while len(rel) < max(n, 2):
+        a = [rng.choice([rng.random(), rng.random(), 0.0, 1.0]) for _ in range(3)]
+        if grid:
+            a = [round(x * 8) / 8 for x in a]
+        rel.append(a)
+        k = rng.randrange(3)
+        if pbc[k] and rng.random() < 0.6:
+            # partner on the other side of periodic face k: e below the far face / above the near face
+            gap = rng.choice([1e-6, 0.05, 0.3, 0.6, 0.9]) * cutoff / lens[k]
+            e1 = rng.random() * gap
+            b = [min(max(x + rng.uniform(-0.2, 0.2) * cutoff / lens[j], 0.0), 1.0) for j, x in enumerate(a)]
+            a2 = list(a)
+            a2[k], b[k] = 1.0 - e1, gap - e1
+            if grid:
+                a2 = [round(x * 8) / 8 for x in a2]
+                b = [round(x * 8) / 8 for x in b]
+            rel[-1] = a2
+            rel.append([min(max(x, 0.0), 1.0) for x in b])
+    rng.shuffle(rel)
+    pos = np.array(rel) @ v + np.array(origin)
+    case = _case(v, origin, pos, pbc, cutoff, 'grid' if grid else 'float', rng.randint(1, 25), rng.randint(1, 25))
+    case['signs'] = [int(s) for s in signs]
     return case
 
 
@@ -2156,6 +2316,52 @@ _NLIST_TEMPLATE = '''
 4|return np.unique(a.view(np.dtype((np.void, a.dtype.itemsize*a.shape[1])))).view(a.dtype).reshape(-1, a.shape[1])
 '''
 
+_DMAG_TEMPLATE = '''
+0|cdef dmag2_c(const <real>[:,:] pos_0,
+13|const <real>[:,:] pos_1,
+13|const <real>[:,:] bvects,
+13|const bint pbc_x,
+13|const bint pbc_y,
+13|const bint pbc_z):
+4|cdef Py_ssize_t ni = pos_0.shape[0]
+4|cdef Py_ssize_t nj = 3
+4|cdef Py_ssize_t i, j, x, y, z, xl, xh, yl, yh, zl, zh
+4|cdef <real> mag2_test
+4|cdef <real>[:] d = np.empty(3, dtype=<real>)
+4|mag2_d = np.empty(ni, dtype=<real>)
+4|cdef <real> [:] mag2_dv = mag2_d
+4|if pbc_x:
+8|xl, xh = -1, 2
+4|else:
+8|xl, xh = 0, 1
+4|if pbc_y:
+8|yl, yh = -1, 2
+4|else:
+8|yl, yh = 0, 1
+4|if pbc_z:
+8|zl, zh = -1, 2
+4|else:
+8|zl, zh = 0, 1
+4|for i in range(ni):
+8|for j in range(nj):
+12|d[j] = pos_1[i,j] - pos_0[i,j]
+8|mag2_dv[i] = d[0] * d[0] + d[1] * d[1] + d[2] * d[2]
+8|for x in range(xl, xh):
+12|for y in range(yl, yh):
+16|for z in range(zl, zh):
+20|if x == 0 and y == 0 and z == 0:
+24|continue
+20|for j in range(nj):
+24|d[j] = (pos_1[i,j] - pos_0[i,j]
+32|+ x * bvects[0,j]
+32|+ y * bvects[1,j]
+32|+ z * bvects[2,j])
+20|mag2_test = d[0] * d[0] + d[1] * d[1] + d[2] * d[2]
+20|<mintest>
+24|mag2_dv[i] = mag2_test
+4|return mag2_d
+'''
+
 _LOAD_BODY = [
     'nterms = 0', 'natoms = 0',
     "with uber_open_rmode(model) as fin:\n    for line in fin:\n        line = line.decode('UTF-8')\n"
@@ -2231,7 +2437,18 @@ def _pin_statements():
         if g != w:
             raise TranslationError(f'nlist.pyx: statement {k + 1} of nlist / unique_rows2 is not the modelled one: '
                                    f'source has {g.split("|", 1)[-1]!r}, the model was written for {w.split("|", 1)[-1]!r}')
-
+    # the distance routine the sweep calls: the model's `dmag2` (Atomman/Dvect.lean) is the running minimum over the
+    # plain separation and the 26 / 8 / 2 shifted ones, nothing else (no branch on the shape of the cell)
+    import re
+    got = [re.sub(r'\|if [^:]*mag2_test[^:]*:$', '|<mintest>', l)
+           for l in _masked_function(cm.source('atomman/core/dmag.pyx'), r'^cdef dmag2_c\(', 'dmag.pyx: dmag2_c')]
+    want = [l for l in _DMAG_TEMPLATE.splitlines() if l.strip()]
+    for k in range(max(len(got), len(want))):
+        g = got[k] if k < len(got) else '<end of function>'
+        w = want[k] if k < len(want) else '<end of function>'
+        if g != w:
+            raise TranslationError(f'dmag.pyx: statement {k + 1} of dmag2_c is not the modelled one: source has '
+                                   f'{g.split("|", 1)[-1]!r}, the model was written for {w.split("|", 1)[-1]!r}')
 
 def translate():
     from ..translate import TranslationError
@@ -2534,8 +2751,9 @@ def canary(ctx):
     rng = random.Random(ctx.seed * 104729 + 11)
     cases = [c for _, c in load_corpus()]
     for gen in (gen_general, gen_grid, gen_edges, gen_hunt, gen_shear, gen_dense, gen_seq_start, gen_fine, gen_nearcut,
-                gen_bigcut, gen_elongated):
+                gen_bigcut, gen_elongated, gen_signed):
         cases += [gen(rng, it) for it in range(12 if gen is gen_dense else 40)]
+    cases += [_variant(c, rng)[0] for c in cases[len(cases) // 2::7]]
     cases += [gen_crystal(rng, it) for it in range(24)]
     res = _run_forked(cases)
     ctx.extra['_canary'] = res is not None
@@ -2687,17 +2905,22 @@ def _correspond(ctx):
     with tempfile.TemporaryDirectory(prefix='c03_') as tmpdir:
         for name, case in load_corpus():
             _correspond_case(ctx, case, 'corpus:' + name, tmpdir, True)
-        plan = [(gen_general, ctx.n(120, 2000)), (gen_grid, ctx.n(120, 2400)), (gen_edges, ctx.n(50, 800)),
-                (gen_hunt, ctx.n(150, 3000)), (gen_outside, ctx.n(80, 1000)), (gen_shear, ctx.n(120, 1600)),
-                (gen_dense, ctx.n(12, 140)), (gen_fine, ctx.n(120, 2400)), (gen_nearcut, ctx.n(100, 1600)),
+        plan = [(gen_general, ctx.n(100, 2000)), (gen_grid, ctx.n(120, 2400)), (gen_edges, ctx.n(50, 800)),
+                (gen_hunt, ctx.n(150, 3000)), (gen_outside, ctx.n(60, 1000)), (gen_shear, ctx.n(120, 1600)),
+                (gen_dense, ctx.n(10, 140)), (gen_fine, ctx.n(120, 2400)), (gen_nearcut, ctx.n(100, 1600)),
                 (_gen_crystal_small, ctx.n(12, 150)), (gen_narrowbin, ctx.n(40, 1000)),
-                (gen_bigcut, ctx.n(100, 1500)), (gen_elongated, ctx.n(16, 150))]
+                (gen_bigcut, ctx.n(100, 1500)), (gen_elongated, ctx.n(14, 150)), (gen_signed, ctx.n(120, 1600))]
         import time
         ph = ctx.extra.setdefault('phase_seconds', {})
+        vrng = random.Random(ctx.seed * 6007 + 5)
         for gen, count in plan:
             t0 = time.time()
             for it in range(count):
                 case = gen(rng, it)
+                if it % 4 == 3 and gen is not gen_signed:
+                    # the same system in an equivalent description: mirrored / axes renamed / vectors reordered / other corner
+                    case, how = _variant(case, vrng)
+                    case['variant'] = how
                 _trace(_payload(case, stage='crash'))
                 _correspond_case(ctx, case, gen.__name__, tmpdir, it % 2 == 0)
             ph['corr:' + gen.__name__] = round(time.time() - t0, 1)
@@ -2776,7 +2999,7 @@ def _model_text_selfcheck(ctx, rng):
 # ----------------------------------------------------------------------------------------
 SEQ_OPS = ['move_inplace', 'move_prop', 'move_scaled', 'set_all', 'set_all_scaled', 'view_all', 'swap', 'pbc',
            'pbc_inplace', 'box_scaled', 'box_grow', 'box_direct', 'translate', 'extend', 'subset', 'copy', 'wrap',
-           'loadmodel', 'r0', 'cutoff', 'sizes', 'noop']
+           'loadmodel', 'r0', 'cutoff', 'sizes', 'noop', 'box_flip', 'mirror']
 
 
 def _state(system):
@@ -2845,6 +3068,16 @@ def _gen_op(rng, name, st, q):
         return {'op': name, 'vects': (v * rng.choice([1.0625, 1.25, 1.5, 2.0])).tolist(), 'origin': o.tolist()}
     if name == 'translate':
         return {'op': name, 'shift': [rng.uniform(-3, 3) for _ in range(3)]}
+    if name == 'box_flip':
+        # the same cell spanned from the far face of vector k: vector k negated, origin on that face, atoms untouched
+        k = rng.randrange(3)
+        nv = v.copy()
+        nv[k] = -v[k]
+        return {'op': name, 'vects': nv.tolist(), 'origin': (o + v[k]).tolist()}
+    if name == 'mirror':
+        # the whole system reflected through 1-3 coordinate planes (cell, origin, atoms): exact
+        mask = rng.randint(1, 7)
+        return {'op': name, 'signs': [-1.0 if mask >> j & 1 else 1.0 for j in range(3)]}
     if name == 'extend':
         return {'op': name, 'pos': (np.array([rel1() for _ in range(rng.randint(1, 3))]) @ v + o).tolist()}
     if name == 'subset':
@@ -2899,6 +3132,12 @@ def _apply_op(system, op, q, prev, tmpdir):
         sh = np.array(op['shift'])
         system.box_set(vects=system.box.vects, origin=system.box.origin + sh)
         system.atoms.pos += sh
+    elif name == 'box_flip':
+        system.box_set(vects=np.array(op['vects']), origin=np.array(op['origin']))
+    elif name == 'mirror':
+        sg = np.array(op['signs'])
+        system.box_set(vects=system.box.vects * sg[None, :], origin=system.box.origin * sg)
+        system.atoms.pos *= sg
     elif name == 'extend':
         system = system.atoms_extend(am.Atoms(pos=np.array(op['pos']).reshape(-1, 3)))
     elif name == 'subset':
@@ -3275,7 +3514,7 @@ def check_large_rows(ctx, n, rows, tmpdir):
             '# The rest of the columns are the indexes of the identified neighbors.\n'
             + ''.join(' '.join(map(str, [i] + rows.get(i, []))) + '\n' for i in range(n)))
     ctx.stats.case('oracle:large-file', (n, json.dumps(payload['rows'], sort_keys=True)), nontrivial=True,
-                   sample={'natoms': n, 'atoms_with_neighbors': len(rows), 'largest_index': max(max(r) for r in rows.values())})
+                   sample={'natoms': n, 'atoms_with_neighbors': len(rows), 'largest_index': max([max(r) for r in rows.values()] or [0])})
     show = {i: rows[i] for i in sorted(rows)[-3:]}
     try:
         nl0 = am.NeighborList(model=text)
@@ -3300,12 +3539,12 @@ def check_large_rows(ctx, n, rows, tmpdir):
         same, where = _nl_equal(nl0, nl1) if len(nl1) == n else (False, -1)
         got1 = {i: [int(j) for j in nl1[i]] for i in show} if len(nl1) == n else {}
     except Exception as e:  # noqa
-        ctx.violate('roundtrip-raises', f'a neighbor list for {n} atoms (longest list: {max(len(r) for r in rows.values())} '
+        ctx.violate('roundtrip-raises', f'a neighbor list for {n} atoms (longest list: {max([len(r) for r in rows.values()] or [0])} '
                     f'entries; lists of the last atoms with neighbors: {_short(show)}) '
                     f'cannot be read back from its own dump: {type(e).__name__}: {str(e)[:200]}', payload)
         return
     if not same:
-        w = where if where is not None and where >= 0 else max(rows)
+        w = where if where is not None and where >= 0 else max(list(rows) or [0])
         ctx.violate('roundtrip', f'a neighbor list for {n} atoms read back from its own dump differs: atom {w} had '
                     f'{_short([int(j) for j in nl0[w]])}, read back {len(nl1)} atoms, atom {w}: '
                     f'{_short([int(j) for j in nl1[w]]) if w < len(nl1) else None}; {_short(got1)} for {_short(show)}',
@@ -3313,25 +3552,29 @@ def check_large_rows(ctx, n, rows, tmpdir):
 
 
 def check_lattice(ctx, m, pbc, init, delta, tmpdir):
-    """a whole simple-cubic lattice of m^3 > 100 000 atoms (spacing 1, cutoff 1.25: the 6 nearest neighbors, decided
-    exactly) through nlist; independent closed-form oracle (index arithmetic); then dump -> load."""
+    """a whole simple-cubic lattice (spacing 1, cutoff 1.25: the 6 nearest neighbors, decided exactly) through nlist;
+    `m`: an integer (m^3 > 100 000 atoms) or a shape [m0, m1, m2] (atom counts of exactly 2^13, 2^14, 2^15, 2^16, just
+    above 2^15 / 2^16: indices on both sides of every narrow integer type, whole numbers of 8192-row blocks);
+    independent closed-form oracle (index arithmetic); then dump -> load."""
     np = _np()
     import atomman as am
     payload = {'op': 'lattice', 'm': m, 'pbc': list(pbc), 'init': init, 'delta': delta}
-    g = np.arange(m)
-    abc = np.array(np.meshgrid(g, g, g, indexing='ij')).reshape(3, -1).T
+    shape = [int(m)] * 3 if isinstance(m, int) else [int(x) for x in m]
+    assert min(shape) >= 3, 'harness: lattice oracle needs three or more planes along every axis'
+    g = [np.arange(k) for k in shape]
+    abc = np.array(np.meshgrid(g[0], g[1], g[2], indexing='ij')).reshape(3, -1).T
     origin = np.array([-3.0, 0.5, 2.0])
-    n = m ** 3
+    n = shape[0] * shape[1] * shape[2]
     ctx.stats.case('oracle:lattice', json.dumps(payload, sort_keys=True), nontrivial=True,
                    sample={'natoms': n, 'pbc': list(pbc), 'cutoff': 1.25, 'initialsize': init, 'deltasize': delta})
     try:
         system = am.System(atoms=am.Atoms(pos=abc.astype(float) + origin),
-                           box=am.Box(vects=np.eye(3) * m, origin=origin), pbc=tuple(pbc))
+                           box=am.Box(vects=np.diag([float(k) for k in shape]), origin=origin), pbc=tuple(pbc))
         nl = am.NeighborList(system=system, cutoff=1.25, initialsize=init, deltasize=delta)
         coord = np.asarray(nl.coord)
         nbr = np.asarray(nl.nlist)[:, 1:]
     except Exception as e:  # noqa
-        ctx.violate('raises', f'neighbor list of a {m}^3 simple-cubic lattice raised {type(e).__name__}: {e}', payload)
+        ctx.violate('raises', f'neighbor list of a {shape} simple-cubic lattice raised {type(e).__name__}: {e}', payload)
         return
     # expected: +-1 along each axis, through the face when that axis is periodic
     big = np.iinfo(np.int64).max
@@ -3340,13 +3583,14 @@ def check_lattice(ctx, m, pbc, init, delta, tmpdir):
         for sgn in (1, -1):
             t = abc.copy()
             t[:, ax] += sgn
-            ok = ((t[:, ax] >= 0) & (t[:, ax] < m)) | bool(pbc[ax])
-            t[:, ax] %= m
-            exp.append(np.where(ok, (t[:, 0] * m + t[:, 1]) * m + t[:, 2], big))
+            ok = ((t[:, ax] >= 0) & (t[:, ax] < shape[ax])) | bool(pbc[ax])
+            t[:, ax] %= shape[ax]
+            exp.append(np.where(ok, (t[:, 0] * shape[1] + t[:, 1]) * shape[2] + t[:, 2], big))
     exp = np.sort(np.array(exp).T, axis=1)                       # ascending, padding last
     ecoord = (exp != big).sum(axis=1)
     exp = np.where(exp == big, -1, exp)
-    desc = f'{m}^3 simple-cubic lattice (spacing 1, cutoff 1.25, pbc {list(pbc)}, initialsize {init}, deltasize {delta})'
+    desc = (f'{shape[0]} x {shape[1]} x {shape[2]} = {n} atom simple-cubic lattice (spacing 1, cutoff 1.25, pbc {list(pbc)}, '
+            f'initialsize {init}, deltasize {delta})')
     if coord.shape != (n,) or (coord != ecoord).any():
         i = int(np.nonzero(coord != ecoord)[0][0]) if coord.shape == (n,) else 0
         ctx.violate('missing' if coord.shape == (n,) and coord[i] < ecoord[i] else 'spurious',
@@ -3373,19 +3617,180 @@ def check_lattice(ctx, m, pbc, init, delta, tmpdir):
         return
     if not same:
         i = where if where is not None and where >= 0 else n - 1
-        ctx.violate('roundtrip', f'the neighbor list of a {m}^3 = {n} atom lattice read back from its own dump differs: '
+        ctx.violate('roundtrip', f'the neighbor list of a {desc} read back from its own dump differs: '
                     f'{len(back)} atoms; atom {i}: wrote {[int(j) for j in nl[i]]}, read '
                     f'{[int(j) for j in back[i]] if i < len(back) else None}', payload)
 
 
+# atom counts at which a size-dependent path would switch: smallest lists, powers of two (narrow integer types, blocks
+# of 2^k rows) and round decimal numbers (blocks of 1000 / 10000 rows), each with the count just below / above
+THRESHOLD_SMALL = ([1, 2, 3] + [2 ** k + d for k in range(7, 15) for d in (-1, 0, 1, 2)]
+                   + [1000, 1001, 2000, 2001, 4999, 5000, 5001, 10000, 10001, 3 * 4096, 3 * 4096 + 1])
+THRESHOLD_EVERY_RUN = [2 ** 15 - 1, 2 ** 15, 2 ** 15 + 1, 2 ** 15 + 2, 2 ** 16 - 1, 2 ** 16, 2 ** 16 + 1, 2 ** 16 + 2]
+THRESHOLD_ROTATING = [3 * 8192, 3 * 8192 + 1, 5 * 8192, 5 * 8192 + 1, 6 * 8192, 7 * 8192, 20000, 20001, 30000, 50000, 50001,
+                      60000, 2 ** 17 - 1, 2 ** 17, 2 ** 17 + 1, 100000]
+LATTICE_EVERY_RUN = [[16, 16, 32], [16, 32, 32], [32, 32, 33]]            # 2^13, 2^14, 2^15 + 1024 atoms
+LATTICE_ROTATING = [47, [32, 32, 64], [40, 41, 40], [32, 32, 32], 47, [33, 40, 50], [32, 64, 33]]
+
+
+def gen_threshold_rows(rng, n):
+    """lists for exactly `n` atoms through the load path: {atom: ascending neighbors}, symmetric, most atoms isolated;
+    the listed indices sit on both sides of every power of two below n (2^k - 1, 2^k, 2^k + 1: where an 8-, 16-bit,
+    signed or unsigned index type ends), on both sides of every multiple of 8192 and of 1000 that is near the top, and
+    at the very end (n - 1, n - 2); the last atom has neighbors in half of the cases and is isolated in the others (an
+    isolated last line is what a dropped or an extra line at the end of the file changes)."""
+    if n == 1:
+        return 1, {}
+    pool = {0, 1, n - 1, n - 2, n // 2}
+    k = 7
+    while 2 ** k - 1 < n:
+        pool.update(x for x in (2 ** k - 1, 2 ** k, 2 ** k + 1) if x < n)
+        k += 1
+    for block in (8192, 1000):
+        top = (n - 1) // block * block
+        pool.update(x for x in (top - 1, top, top + 1) if 0 <= x < n)
+    pool.update(rng.randrange(n) for _ in range(8))
+    pool = sorted(x for x in pool if x >= 0)
+    last_isolated = rng.random() < 0.5 and n > 3
+    if last_isolated:
+        pool = [x for x in pool if x != n - 1] or [0]
+    rows = {}
+    if len(pool) >= 2:
+        for _ in range(rng.randint(len(pool), 3 * len(pool))):
+            i, j = rng.sample(pool, 2)
+            rows.setdefault(i, set()).add(j)
+            rows.setdefault(j, set()).add(i)
+        hub = pool[-1]
+        for j in pool:
+            if j != hub:
+                rows.setdefault(hub, set()).add(j)
+                rows.setdefault(j, set()).add(hub)
+    return n, {i: sorted(r) for i, r in rows.items()}
+
+
+def cloud_system(seed, per_bin, pbc):
+    """`27 per_bin` atoms uniformly in a cube of three cutoffs (a 3 x 3 x 3 block of bins wherever the bin edges
+    fall): an atom of the middle bin is compared with the ~ 14 per_bin atoms of its own bin and of the 13 stencil bins in
+    ONE call of the distance routine - more than 2048 (per_bin = 150) or 4096 (per_bin = 300) candidates at once -
+    while only ~ 4.2 per_bin of them are neighbors.  The cube sits in a cell of 3.2 cutoffs (periodic images then
+    fill the outer bins as well) or, without periodic directions, of 7 cutoffs."""
+    np = _np()
+    rng = random.Random(seed)
+    c = rng.uniform(0.7, 1.9)
+    per = any(pbc)
+    edge = (3.2 if per else 7.0) * c
+    v = np.diag([edge] * 3)
+    v[1, 0] = rng.uniform(-0.1, 0.1) * c
+    if rng.random() < 0.5:
+        v[2] = -v[2]                                  # third vector pointing down its axis
+    origin = np.array([rng.uniform(-3, 3) for _ in range(3)])
+    n = 27 * per_bin
+    gen = np.random.default_rng(seed)
+    lo = 0.5 * (edge - 3.0 * c) / edge
+    rel = lo + gen.random((n, 3)) * (3.0 * c / edge)
+    pos = rel @ v + origin
+    return _case(v, origin.tolist(), pos, pbc, c, 'float', 20, 10)
+
+
+def check_cloud(ctx, seed, per_bin, pbc, init, delta):
+    """candidate lists of more than 2048 / 4096 atoms for one distance call (see `cloud_system`); oracle: numpy float
+    distances over the 27 images for the clear pairs, exact integers for every pair within 1e-9 of the cutoff."""
+    np = _np()
+    import atomman as am
+    payload = {'op': 'cloud', 'seed': seed, 'per_bin': per_bin, 'pbc': list(pbc), 'init': init, 'delta': delta}
+    case = cloud_system(seed, per_bin, pbc)
+    n = len(case['pos'])
+    desc = (f'{n} atoms uniformly in a cube of 3 cutoffs (about {14 * per_bin} candidates per distance call; cutoff '
+            f'{case["cutoff"]!r}, pbc {list(pbc)}, initialsize {init}, deltasize {delta}, replay seed {seed})')
+    try:
+        system = _system(case)
+        nl = am.NeighborList(system=system, cutoff=case['cutoff'], initialsize=init, deltasize=delta)
+        coord = np.asarray(nl.coord).copy()
+        arr = np.asarray(nl.nlist)[:, 1:]
+    except Exception as e:  # noqa
+        ctx.violate('raises', f'neighbor list of {desc} raised {type(e).__name__}: {e}', payload)
+        return
+    P = np.array(case['pos'])
+    V = np.array(case['vects'])
+    c2 = case['cutoff'] ** 2
+    ctx.stats.case('oracle:cloud', json.dumps(payload, sort_keys=True), nontrivial=True,
+                   sample={'natoms': n, 'pbc': list(pbc), 'cutoff': case['cutoff'], 'candidates_per_call': 14 * per_bin,
+                           'max_coord': int(coord.max()) if n else 0})
+    if coord.shape != (n,) or arr.shape[0] != n or int(coord.max()) > arr.shape[1]:
+        ctx.violate('shape', f'{desc}: coord has shape {coord.shape}, the lists {arr.shape}', payload)
+        return
+    shifts = [x * V[0] + y * V[1] + z * V[2] for x in ((-1, 0, 1) if pbc[0] else (0,))
+              for y in ((-1, 0, 1) if pbc[1] else (0,)) for z in ((-1, 0, 1) if pbc[2] else (0,))]
+    nwrong, first = 0, None
+    for lo in range(0, n, 256):                     # blocks of rows: the n x n tables never exist as a whole
+        hi = min(n, lo + 256)
+        best = None
+        for sh in shifts:
+            m = None
+            for j in range(3):
+                d = P[None, :, j] - P[lo:hi, None, j] + sh[j]
+                m = d * d if m is None else m + d * d
+            best = m if best is None else np.minimum(best, m)
+        best[np.arange(hi - lo), np.arange(lo, hi)] = np.inf
+        inside = best < c2 * (1 - 1e-9)
+        near = (~inside) & (best < c2 * (1 + 1e-9))
+        sub, cs = arr[lo:hi], coord[lo:hi]
+        w = int(cs.max()) if hi > lo else 0
+        mask = np.arange(w)[None, :] < cs[:, None]
+        jj = sub[:, :w][mask]
+        if ((jj < 0) | (jj >= n)).any():
+            ctx.violate('range', f'{desc}: a list holds an index outside 0..{n - 1}', payload)
+            return
+        srt = np.where(mask, sub[:, :w], np.iinfo(np.int64).max)
+        if w > 1 and (np.diff(srt, axis=1)[mask[:, 1:]] <= 0).any():
+            ctx.violate('sorted', f'{desc}: a list is not strictly ascending (unsorted or duplicate)', payload)
+            return
+        listed = np.zeros((hi - lo, n), dtype=bool)
+        listed[np.nonzero(mask)[0], jj] = True
+        wrong = (listed != inside) & ~near
+        for i, j in zip(*np.nonzero(near & (listed != inside))):
+            pair = dict(case, pos=[case['pos'][lo + int(i)], case['pos'][int(j)]])
+            k = exact_classes(pair)[(0, 1)]
+            if (k == 'in' and not listed[i, j]) or (k == 'out' and listed[i, j]):
+                wrong[i, j] = True
+        if wrong.any():
+            nwrong += int(wrong.sum())
+            if first is None:
+                i, j = (int(x[0]) for x in np.nonzero(wrong))
+                first = (lo + i, j, bool(listed[i, j]))
+    if first is not None:
+        i, j, was_listed = first
+        d = _dist(dict(case, pos=[case['pos'][i], case['pos'][j]]), 0, 1)
+        if was_listed:
+            ctx.violate('spurious', f'{desc}: atoms {i} and {j} are listed as neighbors but their periodic distance {d:.12g} '
+                        f'is not below the cutoff ({nwrong} wrong entries in all)', payload)
+        else:
+            ctx.violate('missing', f'{desc}: atoms {i} and {j} are closer than the cutoff (periodic distance {d:.12g}) but '
+                        f'are not neighbors ({nwrong} wrong entries in all; atom {i} has {int(coord[i])} neighbors)', payload)
+
+
 def scale_checks(ctx, rng, tmpdir, broken):
+    # counts and thresholds through the load path: every small switching size in every run, the 2^15 / 2^16 ones in every
+    # run, the others in turn (all of them in a thorough run or when a proof / translator obligation has failed)
+    sizes = list(THRESHOLD_SMALL) + list(THRESHOLD_EVERY_RUN)
+    if ctx.thorough or broken:
+        sizes += THRESHOLD_ROTATING
+    else:
+        sizes += [THRESHOLD_ROTATING[(3 * ctx.seed + k) % len(THRESHOLD_ROTATING)] for k in range(3)]
+    for n in sizes:
+        n, rows = gen_threshold_rows(rng, n)
+        check_large_rows(ctx, n, rows, tmpdir)
+        if len(ctx.violations) >= 6:
+            return
     for _ in range(ctx.n(2, 12) * (2 if broken else 1)):
         n, rows = gen_large_rows(rng)
         check_large_rows(ctx, n, rows, tmpdir)
         if len(ctx.violations) >= 6:
             return
-    for _ in range(ctx.n(1, 3)):
-        n, rows = gen_large_rows(rng, digits=7)            # seven-digit indices
+    # seven-digit indices (a file of more than 1 000 000 lines: 6 s): every other seed of a quick run, always in a thorough
+    # run or after a failed obligation
+    for _ in range(ctx.n(1, 3) if (ctx.thorough or broken or ctx.seed % 2 == 1) else 0):
+        n, rows = gen_large_rows(rng, digits=7)
         check_large_rows(ctx, n, rows, tmpdir)
         if len(ctx.violations) >= 6:
             return
@@ -3401,9 +3806,25 @@ def scale_checks(ctx, rng, tmpdir, broken):
         check_ball(ctx, seed, nball, pbc, init, delta, tmpdir)
         if len(ctx.violations) >= 6:
             return
-    plans = [(47, (False, False, False), 6, 1)]
+    # more than 2048 candidates in one distance call in every run (at most one periodic direction: the distance routine
+    # then looks at 1 or 3 images per candidate, not 27), more than 4096 in a thorough run or after a failed obligation
+    few = [p for p in ALL_PBC if sum(p) <= 1]
+    clouds = [(rng.randrange(10 ** 6), 150, few[rng.randrange(4)], 20, 10)]
     if ctx.thorough or broken:
-        plans += [(47, (True, True, True), 1, 1), (48, (True, False, True), 20, 10), (50, (False, True, False), 3, 2)]
+        clouds.append((rng.randrange(10 ** 6), 300, few[rng.randrange(4)] if ctx.thorough else (False, False, False), 40, 200))
+    for seed, per_bin, pbc, init, delta in clouds:
+        _trace({'op': 'cloud', 'seed': seed, 'per_bin': per_bin, 'pbc': list(pbc), 'init': init, 'delta': delta})
+        check_cloud(ctx, seed, per_bin, pbc, init, delta)
+        if len(ctx.violations) >= 6:
+            return
+    plans = [(shape, ALL_PBC[(ctx.seed + k) % 8], rng.choice([1, 6, 20]), rng.choice([1, 10]))
+             for k, shape in enumerate(LATTICE_EVERY_RUN)]
+    if ctx.thorough or broken:
+        plans += [(47, (False, False, False), 6, 1), (47, (True, True, True), 1, 1), (48, (True, False, True), 20, 10),
+                  (50, (False, True, False), 3, 2), ([32, 32, 64], (True, True, False), 6, 1), ([40, 41, 40], (False, True, True), 6, 4),
+                  ([32, 32, 32], (True, False, False), 2, 1)]
+    else:
+        plans.append((LATTICE_ROTATING[ctx.seed % len(LATTICE_ROTATING)], ALL_PBC[(7 - ctx.seed) % 8], 6, 1))
     for m, pbc, init, delta in plans:
         _trace({'op': 'lattice', 'm': m, 'pbc': list(pbc), 'init': init, 'delta': delta})
         check_lattice(ctx, m, pbc, init, delta, tmpdir)
@@ -3463,9 +3884,13 @@ def _search_case(ctx, case, kind, name, full, tmpdir=None):
                    sample={'natoms': n, 'pbc': case['pbc'], 'cutoff': case['cutoff'], 'pairs_below_cutoff': nin,
                            'initialsize': init, 'deltasize': delta})
     for key, what in clauses(case, rows, coord, cls)[:2]:
-        ctx.violate(key, what + f' [{kind}; natoms={n}, pbc={case["pbc"]}, initialsize={init}, deltasize={delta}]',
-                    _payload(case))
+        ctx.violate(key, what + f' [{kind}; natoms={n}, pbc={case["pbc"]}, initialsize={init}, deltasize={delta}'
+                    + (f', vects={case["vects"]}, origin={case["origin"]}' if n <= 8 else '')
+                    + (f'; {case["variant"]}' if case.get('variant') else '') + ']', _payload(case))
         return
+    if full and (n + init + delta) % 4 == 2:
+        if not _equivalent_clause(ctx, case, rows, cls, kind, init, delta):
+            return
     if full:
         bad = _object_clauses(nl, rows, coord)
         if bad:
@@ -3638,6 +4063,37 @@ def _scale_clause(ctx, case, rows, kind):
     return True
 
 
+def _equivalent_clause(ctx, case, rows, cls, kind, init, delta):
+    """the same system described differently (`_variant`: mirrored through coordinate planes, Cartesian axes renamed,
+    cell vectors listed in another order, spanned from the far face of a vector) has the same lists; pairs inside the
+    tie band may differ in the float regimes (another summation order), nothing may differ on the dyadic grids.
+    False after a violation."""
+    n = len(rows)
+    vc, how = _variant(case, random.Random(n * 1009 + init * 31 + delta))
+    if how == 'as generated':
+        return True
+    try:
+        rows_v = _rows(_build(vc, _system(vc), init, delta, 1))
+    except Exception as e:  # noqa
+        ctx.violate('equivalent', f'the same system {how}: neighbor list construction raised {type(e).__name__}: {e} '
+                    f'[{kind}; natoms={n}, pbc={vc["pbc"]}, vects={vc["vects"]}]', _payload(vc))
+        return False
+    ctx.extra['equivalent_descriptions'] = ctx.extra.get('equivalent_descriptions', 0) + 1
+    if rows_v == rows:
+        return True
+    for i in range(n):
+        a, b = set(rows[i]), set(rows_v[i]) if i < len(rows_v) else set()
+        for j in sorted(a ^ b):
+            if cls.get((min(i, j), max(i, j))) != 'tie':
+                bad = clauses(vc, rows_v, [len(r) for r in rows_v])
+                what = bad[0][1] if bad else f'atom {i}: {rows_v[i] if i < len(rows_v) else None} instead of {rows[i]}'
+                ctx.violate('equivalent', f'the same system {how} (cell vectors {vc["vects"]}, origin {vc["origin"]}, pbc '
+                            f'{vc["pbc"]}) has other neighbor lists: {what} [{kind}; natoms={n}, initialsize={init}, '
+                            f'deltasize={delta}]', _payload(vc))
+                return False
+    return True
+
+
 def _dmag_crosscheck(ctx, case, system, rows, cls):
     np = _np()
     n = len(rows)
@@ -3668,18 +4124,25 @@ def _search(ctx, broken):
         _search_case(ctx, case, 'corpus', name, True)
     mult = 3 if broken else 1
     plan = [('dense', gen_dense, ctx.n(40, 1500) * mult), ('shear', gen_shear, ctx.n(600, 8000) * mult),
-            ('hunt', gen_hunt, ctx.n(3200, 45000) * mult), ('general', gen_general, ctx.n(250, 6000) * mult),
+            ('hunt', gen_hunt, ctx.n(2800, 45000) * mult), ('general', gen_general, ctx.n(250, 6000) * mult),
             ('grid', gen_grid, ctx.n(250, 6000) * mult), ('edges', gen_edges, ctx.n(100, 2400) * mult),
             ('fine', gen_fine, ctx.n(500, 9000) * mult), ('nearcut', gen_nearcut, ctx.n(400, 8000) * mult),
             ('crystal', gen_crystal, ctx.n(60, 1000) * mult), ('narrowbin', gen_narrowbin, ctx.n(300, 6000) * mult),
-            ('bigcut', gen_bigcut, ctx.n(500, 8000) * mult), ('elongated', gen_elongated, ctx.n(150, 2400) * mult)]
+            ('bigcut', gen_bigcut, ctx.n(500, 8000) * mult), ('elongated', gen_elongated, ctx.n(150, 2400) * mult),
+            ('signed', gen_signed, ctx.n(480, 9600) * mult)]
     with tempfile.TemporaryDirectory(prefix='c03_') as tmpdir:
         import time
         ph = ctx.extra.setdefault('phase_seconds', {})
+        vrng = random.Random(ctx.seed * 6007 + 11)
         for kind, gen, count in plan:
             t0 = time.time()
             for it in range(count):
                 case = gen(rng, it)
+                if it % 4 == 3 and kind != 'signed':
+                    # every generator family also in an equivalent description (mirrored through coordinate planes: negative
+                    # diagonal entries; axes renamed; cell vectors reordered; spanned from another corner)
+                    case, how = _variant(case, vrng)
+                    case['variant'] = how
                 _trace(_payload(case, stage='crash'))
                 _search_case(ctx, case, kind, kind, full=(kind != 'hunt' or it % 8 == 0),
                              tmpdir=tmpdir if it % 3 == 0 else None)
@@ -3765,6 +4228,9 @@ def _replay(ctx, payload):
     if r.get('op') == 'ball':
         with tempfile.TemporaryDirectory(prefix='c03_') as tmpdir:
             check_ball(ctx, r['seed'], r['nball'], r['pbc'], r['init'], r['delta'], tmpdir)
+        return
+    if r.get('op') == 'cloud':
+        check_cloud(ctx, r['seed'], r['per_bin'], r['pbc'], r['init'], r['delta'])
         return
     if r.get('op') == 'lattice':
         with tempfile.TemporaryDirectory(prefix='c03_') as tmpdir:
